@@ -193,6 +193,10 @@ def main():
         os.environ.pop('BEARTYPE_IS_COLOR', None)
         res = []
         for key, c in memo.items():
+            if not isinstance(key, tuple):
+                # the table is no longer keyed by the argument tuple: the configuration still records it,
+                # and the creation histories decide whether the new keying is visible
+                key = c._conf_args
             res.append({'key': [enc(x) for x in key], 'kwargs': [enc(c.kwargs[n]) for n in NAMES[:17]],
                         'warnset': bool(c._is_warning_cls_on_decorator_exception_set)})
         print(json.dumps(res))
